@@ -10,6 +10,7 @@ import (
 	"io/fs"
 	"math/big"
 	"strings"
+	"time"
 
 	_ "github.com/wader/fq/format/all"
 	"github.com/wader/fq/internal/bitiox"
@@ -63,44 +64,54 @@ func newEvaluator() *evaluator {
 	e := &evaluator{q: q}
 	// what _main does before evaluating a program (pkg/interp/init.jq:178): push the default
 	// options; `tovalue`, used to turn decode values into plain jq values, reads them.
-	if r, ok := e.tryRun("_options_stack([_opt_build_default_fixed]) | length", []any{nil}); !ok || len(r) != 1 {
+	if r, st := e.tryRun("_options_stack([_opt_build_default_fixed]) | length", []any{nil}); st != runOK || len(r) != 1 {
 		panic("cannot initialise the interpreter's option stack")
 	}
 	return e
 }
 
 // run evaluates `.[] | expr` over inputs; expr must emit exactly one value per input.
-// A Go panic inside fq is isolated by re-running the batch one input at a time.
+// A batch that panics, does not finish in time (a conversion function that never terminates, e.g.
+// to_radix(1) before /repo 1a4271bf) or yields a wrong number of outputs is bisected until the
+// offending inputs are isolated.
 func (e *evaluator) run(expr string, inputs []any) []any {
-	res, ok := e.tryRun(expr, inputs)
-	if ok && len(res) == len(inputs) {
+	res, st := e.tryRun(expr, inputs)
+	if st == runOK && len(res) == len(inputs) {
 		return res
 	}
-	out := make([]any, len(inputs))
-	for i, in := range inputs {
-		r, ok := e.tryRun(expr, []any{in})
+	if len(inputs) == 1 {
 		switch {
-		case !ok:
-			out[i] = panicMark{}
-		case len(r) != 1:
-			out[i] = countMark{len(r)}
+		case st == runPanic:
+			return []any{panicMark{}}
+		case st == runTimeout:
+			return []any{timeoutMark{}}
 		default:
-			out[i] = r[0]
+			return []any{countMark{len(res)}}
 		}
 	}
-	return out
+	h := len(inputs) / 2
+	return append(e.run(expr, inputs[:h]), e.run(expr, inputs[h:])...)
 }
 
 type panicMark struct{}
+type timeoutMark struct{}
 type countMark struct{ n int }
 
-func (e *evaluator) tryRun(expr string, inputs []any) (res []any, ok bool) {
+const (
+	runOK = iota
+	runPanic
+	runTimeout
+)
+
+func (e *evaluator) tryRun(expr string, inputs []any) (res []any, st int) {
 	defer func() {
 		if r := recover(); r != nil {
-			ok = false
+			st = runPanic
 		}
 	}()
-	it, err := e.q.Eval(context.Background(), inputs, ".[] | "+expr, interp.EvalOpts{})
+	ctx, cancel := context.WithTimeout(context.Background(), 5*time.Second+time.Duration(len(inputs))*20*time.Millisecond)
+	defer cancel()
+	it, err := e.q.Eval(ctx, inputs, ".[] | "+expr, interp.EvalOpts{})
 	if err != nil {
 		panic(fmt.Sprintf("harness expression does not compile: %s: %v", expr, err))
 	}
@@ -110,12 +121,18 @@ func (e *evaluator) tryRun(expr string, inputs []any) (res []any, ok bool) {
 			break
 		}
 		if _, isErr := v.(error); isErr {
-			// an error that escaped try/catch (e.g. a halt): the batch is cut short
-			return res, true
+			// an error that escaped try/catch (a halt, or the deadline): the batch is cut short
+			if ctx.Err() != nil {
+				return res, runTimeout
+			}
+			return res, runOK
 		}
 		res = append(res, v)
 	}
-	return res, true
+	if ctx.Err() != nil {
+		return res, runTimeout
+	}
+	return res, runOK
 }
 
 // ---- value conversion
@@ -161,6 +178,8 @@ func obsOf(v any) string {
 		return hlib.Hex(b)
 	case panicMark:
 		return "panic"
+	case timeoutMark:
+		return "timeout"
 	case countMark:
 		return fmt.Sprintf("?outputs=%d", v.n)
 	default:
@@ -302,7 +321,12 @@ func parseOp(op string) (p parsed, err error) {
 		if err1 != nil || err2 != nil {
 			return p, fmt.Errorf("bad op %q", op)
 		}
-		return parsed{`. as [$b,$n] | ` + rtExpr("$n | to_radix($b)", "from_radix($b)"), []any{b, n}, rtObs}, nil
+		pre := `. as [$b,$n] | `
+		if bi, ok := b.(int); !ok || bi < 2 {
+			// to_radix with a base below 2 used not to terminate: keep these in a batch of their own
+			pre = `. as [$b,$n] | "base<2" as $_ | `
+		}
+		return parsed{pre + rtExpr("$n | to_radix($b)", "from_radix($b)"), []any{b, n}, rtObs}, nil
 	case name == "radix" && dir == "dec" && len(ws) == 4:
 		b, err1 := parseInt(ws[2])
 		if err1 != nil {
